@@ -313,3 +313,75 @@ def build_T1c(tree):
 
 
 TARGETS['T1c'] = {'file': 'image.py', 'build': build_T1c}
+
+
+def build_T11g(tree):
+    """io.ImageFileReader.__enter__ / __exit__: the open / close bookkeeping of the reader as functions on
+    (enter depth, file open?) - `self.open()` opens a closed file, `self._fp.close(); self._fp = None` closes it."""
+    import copy
+
+    class R(ast.NodeTransformer):
+        def visit_Attribute(self, node):
+            u = ast.unparse(node)
+            if u == 'self._enter_depth':
+                return ast.copy_location(ast.Name(id='depth', ctx=node.ctx), node)
+            if u == 'self._should_close':
+                return ast.copy_location(ast.Name(id='should_close', ctx=node.ctx), node)
+            return self.generic_visit(node)
+
+        def visit_Expr(self, node):
+            u = ast.unparse(node)
+            if u == 'self.open()':
+                return ast.parse('is_open = True').body[0]
+            if u == 'self._fp.close()':
+                return None
+            return node
+
+        def visit_Assign(self, node):
+            if ast.unparse(node) == 'self._fp = None':
+                return ast.parse('is_open = False').body[0]
+            return self.generic_visit(node)
+
+        def visit_Return(self, node):
+            if ast.unparse(node) == 'return self':
+                return ast.parse('return (depth, is_open)').body[0]
+            return node
+    texts, shas = [], []
+    fn = find_func(tree, 'ImageFileReader.__enter__')
+    src = [ast.unparse(x) for x in fn.body]
+    if src != ['if self._enter_depth == 0:\n    self.open()', 'self._enter_depth += 1', 'return self']:
+        raise Unsupported('ImageFileReader.__enter__ changed: ' + ' | '.join(src))
+    stmts = [R().visit(copy.deepcopy(x)) for x in fn.body]
+    for x in stmts:
+        ast.fix_missing_locations(x)
+    texts.append(translate_block(stmts, 'readerEnter', [('depth', 'int'), ('is_open', 'bool')], {},
+                                 doc='`ImageFileReader.__enter__` on (enter depth, file open?)'))
+    shas.append(span_sha(fn.body))
+    fn = find_func(tree, 'ImageFileReader.__exit__')
+    body = list(fn.body)
+    if ast.unparse(body[0]) != 'self._enter_depth -= 1' or len(body) != 2 or not isinstance(body[1], ast.If) \
+            or ast.unparse(body[1].test) != 'self._enter_depth < 1' or body[1].orelse:
+        raise Unsupported('ImageFileReader.__exit__ changed shape')
+    inner = body[1].body
+    if len(inner) != 2 or ast.unparse(inner[0]) != 'if self._should_close:\n    self._fp.close()\n    self._fp = None' \
+            or not (isinstance(inner[1], ast.If) and ast.unparse(inner[1].test) == 'except_value' and isinstance(inner[1].body[-1], ast.Raise)
+                    and inner[1].body[-1].exc is None and not inner[1].orelse):
+        raise Unsupported('ImageFileReader.__exit__: close / re-raise block changed')
+    blk = [copy.deepcopy(body[0]), ast.If(test=copy.deepcopy(body[1].test), body=[copy.deepcopy(inner[0])], orelse=[])]
+    stmts = [R().visit(x) for x in blk] + ast.parse('return (depth, is_open)').body
+    for x in stmts:
+        ast.fix_missing_locations(x)
+    texts.append(translate_block(stmts, 'readerExit', [('depth', 'int'), ('is_open', 'bool'), ('should_close', 'bool')], {},
+                                 doc='`ImageFileReader.__exit__` on (enter depth, file open?); an exception of the body is re-raised after '
+                                     'the same bookkeeping (pinned textually)'))
+    shas.append(span_sha(fn.body))
+    # open(): opens only a closed file
+    fn = find_func(tree, 'ImageFileReader.open')
+    first = [x for x in fn.body if isinstance(x, ast.If) and ast.unparse(x.test) == 'self._fp is None']
+    if len(first) != 1 or 'self._fp = DicomFile(str(self._filename), mode=\'rb\')' not in ast.unparse(first[0]):
+        raise Unsupported('ImageFileReader.open no longer opens the path only when no file is open')
+    shas.append(span_sha(first))
+    return '\n\n'.join(texts), hashlib.sha256(''.join(shas).encode()).hexdigest()
+
+
+TARGETS['T11g'] = {'file': 'io.py', 'build': build_T11g}
